@@ -30,9 +30,9 @@ META = {
 
 P_FIELD, P_CALL, P_INNER, P_OUTER, P_GLOBAL, P_OWN = 3, 5, 7, 11, 13, 2
 ALLP = P_FIELD * P_CALL * P_INNER * P_OUTER * P_GLOBAL * P_OWN
-TARGETS = ['int', 'hasconv', 'plain', 'sublist']
+TARGETS = ['int', 'hasconv', 'plain', 'sublist', 'str']
 SHAPES = ['direct', 'list', 'optional', 'dict_value', 'tuple_var', 'union', 'struct', 'nested_dc', 'inherited', 'inherited_own',
-          'list_any', 'dict_any', 'tuple_any', 'generic_subscripted']
+          'list_any', 'dict_any', 'tuple_any', 'generic_subscripted', 'generic_typevar_field', 'dict_any_key']
 FORMS = ['callable', 'sequence', 'mapping']
 INNER_MODES = [None, 'own', 'inherited', 'unrelated']      # 'unrelated': the class has custom= handlers, but none for the target type
 
@@ -83,23 +83,25 @@ class World:
         class SubL(list):
             pass
 
-        self.types = {'int': int, 'hasconv': Tok, 'plain': Plain, 'sublist': SubL}
+        self.types = {'int': int, 'hasconv': Tok, 'plain': Plain, 'sublist': SubL, 'str': str}
         self.Converter, self.ParseInterrupt, self.WrongTypeError = Converter, ParseInterrupt, WrongTypeError
         self._marks: t.Dict[t.Tuple[t.Any, int], t.Any] = {}
 
     def make_value(self, target, n):
         T = self.types[target]
-        return n if target == 'int' else T([n]) if target == 'sublist' else T(n)
+        return n if target == 'int' else T([n]) if target == 'sublist' else str(n) if target == 'str' else T(n)
 
     def number(self, target, x):
         if target == 'int':
             return x if type(x) is int else None
+        if target == 'str':
+            return int(x) if type(x) is str and x.lstrip('-').isdigit() else None
         if target == 'sublist':
             return x[0] if type(x) is self.types['sublist'] and len(x) == 1 else None
         return x.v if type(x) is self.types[target] else None
 
     def datum(self, target, n):
-        return [n] if target == 'sublist' else n
+        return [n] if target == 'sublist' else str(n) if target == 'str' else n
 
     def mark(self, T, p):
         key = (T, p)
@@ -118,6 +120,8 @@ class World:
                     if isinstance(val, (list, tuple)) and len(val) == 1 and type(val[0]) is int:
                         return val[0]
                     return None
+                if target == 'str':
+                    return int(val) if type(val) is str and val.lstrip('-').isdigit() else None
                 return val if type(val) is int else None
 
             def try_convert(self, val):
@@ -175,12 +179,14 @@ def shape_type(pane, X, shape):
         return t.Dict[str, t.Any], (lambda d: {'k': d}), (lambda r: r['k'])
     if shape == 'tuple_any':
         return t.Tuple[t.Any, ...], (lambda d: [d]), (lambda r: r[0])
+    if shape == 'dict_any_key':          # the member is a KEY of a mapping whose key type is not declared
+        return t.Dict[t.Any, int], (lambda d: {d: 0}), (lambda r: next(iter(r)))
     raise KeyError(shape)
 
 
 def expected_prime(target, srcs, shape):
     """srcs: dict of booleans F, C, I, O, G.  Returns the prime that must mark the result (1 = unmarked built-in), or 'TypeError'."""
-    if srcs['F'] and shape in ('direct', 'generic_subscripted'):
+    if srcs['F'] and shape in ('direct', 'generic_subscripted', 'generic_typevar_field'):
         return P_FIELD
     if srcs['C']:
         return P_CALL
@@ -188,7 +194,7 @@ def expected_prime(target, srcs, shape):
         return P_INNER
     if srcs['O']:
         return P_OUTER
-    if target == 'int':
+    if target in ('int', 'str'):
         return 1
     if target == 'hasconv':
         return P_OWN
@@ -207,9 +213,13 @@ def run_cell(pane, world, res, target, shape, form, mask, inner_mode, only_dir=N
     call_unrelated = bool(mask & 16)
     if call_unrelated and srcs['C']:
         return
-    if srcs['F'] and shape not in ('direct', 'generic_subscripted'):
+    if srcs['F'] and shape not in ('direct', 'generic_subscripted', 'generic_typevar_field'):
         return
-    any_shape = shape.endswith('_any')
+    if target == 'str' and shape in ('dict_value', 'dict_any', 'struct', 'union', 'generic_subscripted'):
+        return      # (the str handler would also take the mapping's own str keys / the union's str member)
+    if shape == 'dict_any_key' and target == 'sublist':
+        return      # unhashable
+    any_shape = shape.endswith('_any') or shape == 'dict_any_key'
     # ---- reset global state
     make_converter.cache.clear()
     del pc._GLOBAL_HANDLERS[1:]
@@ -228,7 +238,7 @@ def run_cell(pane, world, res, target, shape, form, mask, inner_mode, only_dir=N
             # handlers that answer NotImplemented for X (they only know `bytes`): must defer to the dataclasses further out
             inner_kw['custom'] = world.handler(bytes, P_INNER, form)
         Base = type('Base', (pane.PaneBase,), {'__annotations__': {}, '__module__': 'mc.generated'}, **base_kw)
-        if shape in ('nested_dc', 'inherited', 'inherited_own', 'generic_subscripted'):
+        if shape in ('nested_dc', 'inherited', 'inherited_own', 'generic_subscripted', 'generic_typevar_field'):
             ftype, wrap, unwrap = X, (lambda d: d), (lambda r: r)
         else:
             ftype, wrap, unwrap = shape_type(pane, X, shape)
@@ -251,6 +261,14 @@ def run_cell(pane, world, res, target, shape, form, mask, inner_mode, only_dir=N
             gns['g'] = 'g'
             GInner = new_class('Inner', (Base, t.Generic[TV]), gns, **inner_kw)
             Inner = GInner[str]
+        elif shape == 'generic_typevar_field':
+            # ... and here the field that carries the converter is itself typed by the type variable: Inner = G[X]
+            from mc.classes_gen import new_class
+            TV = t.TypeVar('TV')
+            gns = dict(ns)
+            gns['__annotations__'] = {'f': TV}
+            GInner = new_class('Inner', (Base, t.Generic[TV]), gns, **inner_kw)
+            Inner = GInner[X]
         elif shape in ('inherited', 'inherited_own'):
             # the field is declared on a parent; the converting class is a subclass (with / without its own custom=)
             Parent = type('Parent', (Base,), dict(ns), **inner_kw)
@@ -301,10 +319,10 @@ def run_cell(pane, world, res, target, shape, form, mask, inner_mode, only_dir=N
             val = world.make_value(target, ALLP)
             if shape == 'nested_dc':
                 inner_obj = Inner.make_unchecked(f=Leaf.make_unchecked(f=val))
-            elif any_shape or shape not in ('direct', 'inherited', 'inherited_own', 'generic_subscripted'):
+            elif any_shape or shape not in ('direct', 'inherited', 'inherited_own', 'generic_subscripted', 'generic_typevar_field'):
                 container = {'list': lambda: [val, val], 'optional': lambda: val, 'dict_value': lambda: {'k': val}, 'tuple_var': lambda: (val,),
                              'union': lambda: val, 'struct': lambda: {'k': val}, 'list_any': lambda: [val], 'dict_any': lambda: {'k': val},
-                             'tuple_any': lambda: (val,)}[shape]()
+                             'tuple_any': lambda: (val,), 'dict_any_key': lambda: {val: 0}}[shape]()
                 inner_obj = Inner.make_unchecked(f=container)
             else:
                 inner_obj = Inner.make_unchecked(f=val)
@@ -321,6 +339,8 @@ def run_cell(pane, world, res, target, shape, form, mask, inner_mode, only_dir=N
                     leaf = leaf['f']
                 leaf = unwrap_data(shape, leaf)
                 got = leaf[0] if target == 'sublist' and isinstance(leaf, (list, tuple)) and len(leaf) == 1 else leaf
+                if target == 'str' and type(got) is str and got.lstrip('-').isdigit():
+                    got = int(got)
             except TypeError as e:
                 got = 'TypeError'
             except Exception as e:  # noqa
@@ -356,6 +376,8 @@ def unwrap_data(shape, leaf):
         return leaf['k']
     if shape in ('tuple_var', 'list_any', 'tuple_any'):
         return leaf[0]
+    if shape == 'dict_any_key':
+        return next(iter(leaf))
     return leaf
 
 
@@ -441,6 +463,43 @@ def run_histories(pane, world, res):
                                f"{got!r}, expected {want!r} (the nearest enclosing dataclass wins)", {'histories': True, 'what': 'three_level'}, 3)
 
 
+def run_role_histories(pane, world, res):
+    """One handler OBJECT used in two roles in successive conversions: as the class handler of an enclosing dataclass, then as the
+    handler passed to a call (and the other way round).  The role it has in a call decides its rank, not where it was seen before."""
+    from pane.convert import make_converter
+    for form in ('callable', 'sequence'):
+        for order in ('class_then_call', 'call_then_class'):
+            make_converter.cache.clear()
+            h = world.handler(int, P_CALL, form)          # the shared object: marks with 5 whatever its role
+            h2 = world.handler(int, P_INNER, form)        # Inner's own: marks with 7
+            Inner = type('InnerR', (pane.PaneBase,), {'__annotations__': {'f': int}, '__module__': 'mc.generated'}, custom=h2)
+            Outer = type('OuterR', (pane.PaneBase,), {'__annotations__': {'inner': Inner, 'o': int}, '__module__': 'mc.generated'}, custom=h)
+            steps = [('Outer.from_data (h is the class handler of Outer)', lambda: (lambda r: (r.inner.f, r.o))(pane.from_data({'inner': {'f': 1}, 'o': 1}, Outer)), (P_INNER, P_CALL)),
+                     ('Inner.from_data(custom=h) (h is passed to the call)', lambda: pane.from_data({'f': 1}, Inner, custom=h).f, P_CALL),
+                     ('Inner.from_data() (no call handlers)', lambda: pane.from_data({'f': 1}, Inner).f, P_INNER)]
+            if order == 'call_then_class':
+                steps = [steps[1], steps[0], steps[2], steps[1]]
+            else:
+                steps = steps + [steps[0]]
+            hist = []
+            for label, run, want in steps:
+                hist.append(label)
+                res['states'] += 1
+                res['evals'] += 1
+                res['validated'] += 1
+                res['transitions'] += 1
+                res['nontrivial'].add(f"roles|{form}|{order}|{len(hist)}")
+                try:
+                    got = run()
+                except Exception as e:  # noqa
+                    got = f"{type(e).__name__}: {core.sstr(e, 60)}"
+                if got != want:
+                    core.add_violation(res, {'kind': 'handler_rank_depends_on_history', 'form': form, 'order': order},
+                                       f"one handler object ({form} form) as class handler of Outer and as call handler, history {hist}: marks {got!r}, "
+                                       f"expected {want!r} (call={P_CALL} beats the class's own={P_INNER})", {'histories': True, 'what': 'roles'}, len(hist))
+                    break
+
+
 def run_shard(shard, tier):
     pane = core.import_pane()
     warnings.simplefilter('ignore')
@@ -449,6 +508,7 @@ def run_shard(shard, tier):
     if shard.get('mapping_exact'):
         run_mapping_exact(pane, world, res)
         run_histories(pane, world, res)
+        run_role_histories(pane, world, res)
         return res
     target, shape = TARGETS[shard['t']], SHAPES[shard['s']]
     for form in FORMS:
